@@ -289,7 +289,7 @@ pub fn eval_include(c: &Case7, dir: &std::path::Path, variant: usize) -> Result<
 pub fn run(tier: &str) -> Run {
     let mut run = Run::new("C07", tier);
     let g = corpus::grammar();
-    let cases = build(&g, tier == "thorough");
+    let cases = build(&g, crate::util::wide(tier));
     let res = par_map(cases.len(), &|i| eval(&cases[i]), &|i| {
         println!("MACHINERY-ERROR: C07 case hangs: {}", cases[i].label);
         std::process::exit(2);
@@ -321,7 +321,7 @@ pub fn run(tier: &str) -> Run {
         let base = if std::path::Path::new("/dev/shm").is_dir() { "/dev/shm".to_string() } else { std::env::temp_dir().to_string_lossy().into_owned() };
         std::path::PathBuf::from(base).join(format!("verif-c07-{}", std::process::id()))
     };
-    let step = if tier == "thorough" { 1 } else { 3 };
+    let step = if crate::util::wide(tier) { 1 } else { 3 };
     let idx: Vec<usize> = (0..cases.len()).step_by(step).collect();
     let ires = par_map(
         idx.len() * 3,
